@@ -40,6 +40,28 @@ def subtractSignature (s p : Nat) : Nat := (s % N + (N - p % N) % N) % N
 def partialSigs (e : Nat) (signers : List (Nat × Nat)) : List Nat :=
   signers.map fun s => partialSig e s.1 s.2
 
+/-- `ExtKeychain::sign_with_blinding(msg, blinding)` (keychain/src/keychain.rs):
+`let skey = &blinding.secret_key(&self.secp)?; let sig = self.secp.sign(&msg, &skey)?;` —
+`BlindingFactor::secret_key` hands out `ZERO_KEY` for the all-zero factor (its explicit special
+case) and `Secp256k1::sign` asserts the key is not zero: a PANIC, not an `Err`; 32 bytes that are no
+scalar (≥ n) fail in `secret_key` with `Err(Secp(InvalidSecretKey))`; everything else signs. -/
+def ksignBlinding (b : Nat) : Res Unit :=
+  match bfSecretKey b with
+  | none => .err
+  | some k => if k = 0 then .panic else .ok ()
+
+/-- `aggsig::sign_with_blinding(secp, msg, blinding, _)` (core/src/libtx/aggsig.rs): the same key
+conversion, then `aggsig::sign_single`, whose C side does not refuse the zero key — it signs -/
+def aggsigSignBlinding (b : Nat) : Res Unit :=
+  match bfSecretKey b with
+  | none => .err
+  | some _ => .ok ()
+
+def showSignRes : Res Unit → String
+  | .ok _ => "ok"
+  | .err => "err"
+  | .panic => "panic"
+
 /-- what the harness' `keys sig <variant> <n>` lines must answer: variants named `ok-…` are honest
 signatures checked under their own key / signer set (or a keychain masked twice), `bad-…` are the
 negative controls -/
